@@ -37,7 +37,7 @@ def run(tier, t0, prop="C08"):
         stale.setdefault(s["key"], set()).add(s["config"])
     rep.stale = sorted(k for k, v in stale.items() if len(v) == 2)
     if prop == "C08":
-        rep.floor("montgomery_form_writes", 100)
+        rep.floor("montgomery_form_writes", 85)
         rep.floor("from_const_params_sites", 2)
     rep.floor("reduction_level_obligations", 20)
     rep.floor("carry_returning_calls_in_modular", 20)
